@@ -271,7 +271,7 @@ def generate(ch, profile):
     if ch.chance("cfg", 0.12):
         cfg["turn_refresh"] = {"side": ch.choice("cfg", ["A", "B"]), "nth": ch.choice("cfg", [3, 6, 10, 20, 40, 80]),
                                "dur": ch.choice("cfg", [0.005, 0.05, 0.3])}
-    cfg["lifecycle"] = profile == "c01" and ch.chance("cfg", 0.2)
+    cfg["lifecycle"] = profile in ("c01", "c02") and ch.chance("cfg", 0.2)
     nchan = ch.choice("wl", [1, 1, 2, 2, 3, 4, 5])
     chans = [gen_channel(ch, k, profile) for k in range(nchan)]
     ops = []
@@ -295,10 +295,16 @@ def generate(ch, profile):
         c = ch.choice("wl", chans)
         side = ch.choice("wl", ["A", "B"])
         r = ch.index("wl", 100)
-        lifecycle = profile == "c13" or (profile == "c01" and cfg.get("lifecycle"))
+        lifecycle = profile == "c13" or (profile in ("c01", "c02") and cfg.get("lifecycle"))
         if lifecycle and r < 12 and c["tag"] not in closed:
             ops.append({"op": "close", "tag": c["tag"], "side": side, "t": ch.choice("wl", DTS)})
             closed.add(c["tag"])
+            others = [x for x in chans if x["tag"] not in closed]
+            if others and ch.chance("wl", 0.35):
+                # a second channel closed in the same tick: one stream reset request names both
+                c2 = ch.choice("wl", others)
+                ops.append({"op": "close", "tag": c2["tag"], "side": side, "t": 0.0})
+                closed.add(c2["tag"])
             continue
         if lifecycle and c["tag"] in closed and r < 40 and c["tag"] not in reused:
             # re-use the id of a closed channel while faults are still active
@@ -1026,6 +1032,7 @@ class World:
         chan = model.obj[side]
         if model.close_called is None:
             model.close_called = self.loop.time()
+            model.closer = side
             model.close_state = chan.readyState
             model.close_id = chan.id
             model.close_assoc = self.sctp[side].state
@@ -1059,6 +1066,12 @@ class World:
             if not model.reliable or model.broken or model.exempt:
                 continue
             for sender in "AB":
+                if model.close_called is not None and (sender != getattr(model, "closer", None)
+                                                       or getattr(model, "close_assoc", None) != "connected"):
+                    # what the other side still had on its way when this channel was closed under it may be lost;
+                    # a close() before the association is up drops the closer's queued messages too (the known
+                    # C13 finding F13/F16, judged there)
+                    continue
                 n_sent, n_recv = len(model.sent[sender]), len(model.recv[sender])
                 if n_recv < n_sent:
                     missing += n_sent - n_recv
